@@ -6,6 +6,10 @@
                                    -> ok:<w>,<h>,<comps>,<P>,<near>:<hexpixels> | err | panic | fuel
      jls_params  <P> <near>   -> maxval,near,range,qbpp,limit,t1,t2,t3,reset  (as coded)
      t87_params  <P> <near>   -> the same from the T.87 formulas
+     jls_decode_safe <hex> | jlsn_decode_safe <hex>  -> as jls_decode, through the index-explicit twins (JlsSafe)
+     jls_gr <hexdata> <n,n,...>  -> <v,v,...>|ok / |end  reads through the GolombReader as coded (n = 0: ReadBit,
+                                    n > 0: ReadBits(n)); stops at the first error; panic / fuel if a check fires
+     jls_bl <hexdata> <n,n,...>  -> the same on the bit-list semantics used by the decoder models
      jls_gw <item,item,...>   -> hex of the GolombWriter output incl. Flush; item = v:n (WriteBits(v,n))
                                  or e:k:m:limit:qbpp (EncodeMappedValue) *)
 open BinNums
@@ -61,6 +65,23 @@ let register (reg : string -> (string list -> string) -> unit) : unit =
     | _ -> "?");
   reg "t87_decode" (fun a -> match a with
     | [s] -> outcome_t87 (JlsT87Dec.t87_decode lim (bytes_of_hex s))
+    | _ -> "?");
+  reg "jls_decode_safe" (fun a -> match a with
+    | [s] -> outcome_decoded (JlsSafe.jls_decode_safe lim (bytes_of_hex s))
+    | _ -> "?");
+  reg "jlsn_decode_safe" (fun a -> match a with
+    | [s] -> outcome_decoded (JlsSafe.jlsn_decode_safe lim (bytes_of_hex s))
+    | _ -> "?");
+  reg "jls_gr" (fun a -> match a with
+    | [d; sc] ->
+      (match JlsSafe.gr_script (bytes_of_hex d) (zlist_of_string sc) with
+       | Base.Ok (vs, fin) -> string_of_zlist vs ^ (if fin then "|ok" else "|end")
+       | Base.Err -> "err" | Base.Panic -> "panic" | Base.OutOfFuel -> "fuel")
+    | _ -> "?");
+  reg "jls_bl" (fun a -> match a with
+    | [d; sc] ->
+      let (vs, fin) = JlsSafe.bl_script (bytes_of_hex d) (zlist_of_string sc) in
+      string_of_zlist vs ^ (if fin then "|ok" else "|end")
     | _ -> "?");
   reg "jls_gw" (fun a -> match a with
     | [s] ->
